@@ -163,7 +163,52 @@ def h_normfit_moments(h):
     h.close((full - 1) * scale * scale * full, inst["sigma_norm"] ** 2, "variance-is-sigma_norm^2", rtol=1e-8)
 
 
+def h_extreme_parameters(h):
+    """CONCRETE (not solver-based): parameter magnitudes a factor 10 outside the symbolic ranges and evaluation points
+    far in both tails, compared with the scipy kernel at the documented argument tuple - guards own formulas whose
+    floating-point behaviour differs from scipy's (Real mode cannot see cancellation)"""
+    if h.sym:
+        h.note("concrete obligation: decided by the run on the real libraries only")
+        return
+    import itertools
+    import scipy.stats as sts_
+    fam = FAMILIES[h.cfg["family"]]
+    method = h.cfg["method"]
+    grids = []
+    for p in fam.params:
+        lo, hi = fam.ranges[p]
+        lo_ext = lo / 10.0 if lo > 0 else lo * 3.0 - 1.0
+        grids.append([lo_ext, 0.5 * (lo + hi), hi * 10.0])
+    h.reach()
+    probs = [1e-12, 1e-6, 0.01, 0.5, 0.99, 1 - 1e-9]
+    bad = []
+    for combo in itertools.product(*grids):
+        theta = dict(zip(fam.params, combo))
+        ref = fam.ref(theta)
+        k = getattr(sts_, fam.scipy)
+        try:
+            d = fam.make(**theta)
+        except Exception:
+            continue
+        with np.errstate(all="ignore"):
+            pts = probs if method == "icdf" else [float(v) for v in k.ppf(probs, *ref) if np.isfinite(v)]
+            if not pts:
+                continue
+            got = np.asarray(getattr(d, method)(np.array(pts)), dtype=float)
+            want = np.asarray(getattr(k, METHODS[method])(np.array(pts), *ref), dtype=float)
+            if fam.cls == "ExponentiatedWeibullDistribution" and method == "pdf":
+                want = np.where(np.array(pts) > 0, want, 0.0)
+        ok = (np.isnan(got) & np.isnan(want)) | (np.abs(got - want) <= 1e-9 * np.maximum(np.abs(want), 1e-300)) | (got == want)
+        if not bool(np.all(ok)):
+            i = int(np.argmin(ok))
+            bad.append(f"{theta} at {pts[i]!r}: {got[i]!r} vs scipy {want[i]!r}")
+    h.check(not bad, "documented-kernel-at-extreme-parameters-and-tails", "; ".join(bad[:3]))
+
+
 def obligations(tier):
+    for fname in FAMILIES:
+        for method in METHODS:
+            yield ("extreme_parameters", h_extreme_parameters, {"family": fname, "method": method}, {})
     kinds = ["scalar", "array"] if tier == "quick" else ["scalar", "array", "array3", "list", "array2x2"]
     passings = ["kw", "pos"]
     for fname, fam in FAMILIES.items():
